@@ -141,7 +141,7 @@ PROPS["C18"] = dict(
     ],
     gates=dict(evaluations=(500, 20000), distinct=(40, 80),
                counters={"keyed_exports": (200, 8000), "keyed_answers_identical": (8000, 400000), "zero_key_exports": (20, 500), "expired_shards_checked": (300, 10000), "valid_shards_checked": (300, 10000), "shards_deleted_by_clean": (100, 5000),
-                         "flags_000": (8, 100), "flags_111": (8, 100), "keyed_mixture_directories": (60, 2000), "keyed_mixture_hits_identical": (2000, 100000)}),
+                         "flags_000": (8, 100), "flags_111": (8, 100), "keyed_mixture_directories": (60, 2000), "keyed_collision_directories": (20, 800), "keyed_collision_hits": (1000, 40000), "keyed_mixture_hits_identical": (2000, 100000)}),
 )
 
 # ---------------------------------------------------------------------------------------------
